@@ -123,4 +123,35 @@ func init() {
 	add("c08-tovalue-int64-unsigned", "C08.tovalue", V,
 		"\t\treturn big.NewInt(vv), nil\n",
 		"\t\treturn new(big.Int).SetUint64(uint64(vv)), nil\n", "leaf:int64")
+	// round 3 (self-review by mutation)
+	add("c08-numlen-int-sign-inverted", "C08.numlen", T,
+		"\tcase int:\n\t\tif vv < 0 {\n\t\t\treturn -vv", "\tcase int:\n\t\tif vv > 0 {\n\t\t\treturn -vv", "Number.Length:int")
+	add("c08-numlen-big-arm-dropped", "C08.numlen", T,
+		"\tcase *big.Int:\n\t\tif vv.Sign() < 0 {\n\t\t\treturn new(big.Int).Abs(vv)\n\t\t}\n\t}\n\treturn v.V", "\t}\n\treturn v.V", "Number.Length:*math/big.Int")
+	add("c08-strnum-valid-inverted", "C08.strnum", T,
+		"if !gojq.ValidNumber(string(v)) {", "if gojq.ValidNumber(string(v)) {", "String.ToNumber")
+	add("c08-lazy-called-inverted", "C08.lazy", T,
+		"\tif !v.called {\n\t\tv.jv, v.err = v.Fn()", "\tif v.called {\n\t\tv.jv, v.err = v.Fn()", "Lazy.producer")
+	add("c08-lazy-producer-error-dropped", "C08.lazy", T,
+		"\treturn v.jv, v.err\n}", "\treturn v.jv, nil\n}", "Lazy.producer")
+	add("c08-lazy-apply-error-inverted", "C08.lazy", T,
+		"\tjv, err := v.v()\n\tif err != nil {\n\t\treturn err\n\t}\n\treturn fn(jv)", "\tjv, err := v.v()\n\tif err == nil {\n\t\treturn err\n\t}\n\treturn fn(jv)", "Lazy.apply")
+	add("c08-iface-keyseq-preallocated", "C08.iface", T,
+		"ks := make([]string, 0, len(v))", "ks := make([]string, len(v))", "Object.keyseq")
+	add("c08-iface-struct-has-nonstring-false", "C08.iface", D,
+		"\t\t\tif !ok {\n\t\t\t\treturn gojqx.HasKeyTypeError{L: gojq.JQTypeObject, R: fmt.Sprintf(\"%v\", key)}\n\t\t\t}", "\t\t\tif !ok {\n\t\t\t\treturn false\n\t\t\t}", "StructDecodeValue.Has")
+	add("c08-iface-struct-key-null-when-present", "C08.iface", D,
+		"\t\t\t\tif f, ok := v.Compound.ByName[name]; ok {\n\t\t\t\t\treturn makeDecodeValue(f, decodeValueValue)", "\t\t\t\tif f, ok := v.Compound.ByName[name]; ok && f.Index >= 0 {\n\t\t\t\t\treturn makeDecodeValue(f, decodeValueValue)", "StructDecodeValue.Key")
+	add("c08-togojq-raw-synthetic-inverted", "C08.togojq", D,
+		"ok && !s.ScalarFlags().IsSynthetic() {\n\t\tbv, err := v.ToBinary()", "ok && s.ScalarFlags().IsSynthetic() {\n\t\tbv, err := v.ToBinary()", "decodeValue.ToGoJQEx:raw")
+	add("c08-kinds-raw-reader-not-cloned", "C08.kinds", D,
+		"if _, err := bitiox.CopyBits(buf, vvvC); err != nil {", "_ = vvvC\n\t\t\t\t\t\tif _, err := bitiox.CopyBits(buf, vvv); err != nil {", "arm:pkg/bitio.ReaderAtSeeker")
+	add("c08-keys-has-true-for-nonstring", "C08.keys", D,
+		"\tname, ok := key.(string)\n\tif !ok {\n\t\treturn false\n\t}\n\n\tswitch name {\n\tcase \"_actual\",\n\t\t\"_bits\",", "\tname, ok := key.(string)\n\tif !ok {\n\t\treturn true\n\t}\n\n\tswitch name {\n\tcase \"_actual\",\n\t\t\"_bits\",", "has:true")
+	add("c08-jq-toactual0-converts-sym", "C08.jq", "pkg/interp/decode.jq",
+		"def toactual: toactual({});", "def toactual: tosym({});", "toactual/0")
+	add("c08-jq-go-error-test-inverted", "C08.jq", D,
+		"\tv, err := toValue(func() (*Options, error) { return opts, nil }, c)\n\tif err != nil {\n\t\treturn err\n\t}\n\treturn v", "\tv, err := toValue(func() (*Options, error) { return opts, nil }, c)\n\tif err == nil {\n\t\treturn err\n\t}\n\treturn v", "_tovalue")
+	add("c08-kindsel-ifchain-value-under-sym", "C08.kindsel", D,
+		"\t\tcase decodeValueSym:\n\t\t\tvvv = vv.ScalarSym()\n\t\t}", "\t\tcase decodeValueSym:\n\t\t\tvvv = vv.ScalarValue()\n\t\t}", "select:")
 }
